@@ -1,4 +1,5 @@
 """C04 - termination detection (structural clauses), ring and tree detectors."""
+import re
 from gsa.cfg import Fn, S, is_call, is_assign, walk, lit
 from gsa import rules as R
 from . import mo
@@ -183,11 +184,15 @@ def ring(ctx, fx):
         if fv != {"true"}:
             det.append("flag stored is %s" % sorted(fv))
         tgt = {e["p"] for _, e in fn.events(flg)}
-        if not all("getRemote(((id + 1) % this->activeThreads))" in S(e["obj"], al) for _, e in fn.events(flg)):
-            det.append("token is not sent to (id + 1) %% activeThreads: %s" % [S(e["obj"], al) for _, e in fn.events(flg)])
-        idd = fn.defs().get("id")
-        if idd is None or "getTID" not in S(idd):
-            det.append("id is not the caller's thread id")
+        # the successor is (own thread id + 1) % activeThreads: locals are expanded through their definitions, so the names of
+        # the id / holder locals do not matter
+        al2 = dict(al)
+        al2.update(fn.defs())
+        objs = [S(e["obj"], al2) for _, e in fn.events(flg)] + [S(e["obj"], al2) for _, e in fn.events(col)]
+        succ_rx = re.compile(r"getRemote\(\(\((\w+::)*getTID\(\) \+ 1\) % this->activeThreads\)\)|"
+                             r"getRemote\(\(\(1 \+ (\w+::)*getTID\(\)\) % this->activeThreads\)\)")
+        if not objs or not all(succ_rx.search(o) for o in objs):
+            det.append("token is not sent to (own thread id + 1) %% activeThreads: %s" % sorted(set(objs)))
         ctx.ob("C04.ring.order", f["qn"], not det, "; ".join(det), fn.loc(), "propToken", fnkey=f["key"])
     fs = inst(fx, LTD + "::initializeThread")
     ctx.floor("LocalTerminationDetection::initializeThread", len(fs), 1)
